@@ -36,10 +36,10 @@ def scenarios(tier):
         c = es.conc_cfg(cap=200, kind=kind, minseg=8, retries=2)
         # pop vs insert on a one-segment list (both C07 findings live here)
         sc.append(("pop_vs_insert_" + kind, c, SETUP_ONESEG,
-                   [[AB(16), FILL(T0), VER(T0)], [DROP(2)]], {"live": True}))
+                   [[AB(16), FILL(T0), VER(T0)], [DROP(2)]], {"pb": True, "live": True}))
         # two poppers + verification of recycled contents
         sc.append(("two_poppers_" + kind, c, SETUP_TWOSEG,
-                   [[AB(8), FILL(T0), VER(T0), DROP(T0)], [AB(8), FILL(T1), VER(T1)]], {"live": True}))
+                   [[AB(8), FILL(T0), VER(T0), DROP(T0)], [AB(8), FILL(T1), VER(T1)]], {"pb": True, "live": True}))
         # inserts only: no node is ever removed, so no removed node can be met -> liveness must hold
         sc.append(("inserts_only_" + kind, c, SETUP_TWOSEG,
                    [[DROP(2)], [DROP(4)]], {"live": True, "expect_live": True}))
@@ -62,11 +62,11 @@ def scenarios(tier):
         # successor is changed by the other while it is between its reads and its CASes)
         sc.append(("neighbours_" + kind, c, [AB(24), FILL(1), AB(8), FILL(2), AB(40), FILL(3), AB(8), FILL(4), AB(56), FILL(5), AB(8), FILL(6),
                                              AB(55), FILL(7), DROP(1), DROP(3), DROP(5)],
-                   [[AB(20), FILL(T0), VER(T0), DROP(T0)], [AB(30), FILL(T1), VER(T1)]], {"live": True}))
+                   [[AB(20), FILL(T0), VER(T0), DROP(T0)], [AB(30), FILL(T1), VER(T1)]], {"pb": True, "live": True}))
         # the head is popped, split and released again by one thread while the other sits between its read of the head word
         # and its mark CAS: the same node is the head again, with another size (an ABA on the sentinel word)
         sc.append(("aba_head_" + kind, c, [AB(120), FILL(1), AB(79), FILL(2), DROP(1)],
-                   [[AB(60), FILL(T0), DROP(T0), AB(30), FILL(T0 + 1), VER(T0 + 1)], [AB(90), FILL(T1), VER(T1)]], {"live": True}))
+                   [[AB(60), FILL(T0), DROP(T0), AB(30), FILL(T0 + 1), VER(T0 + 1)], [AB(90), FILL(T1), VER(T1)]], {"pb": True, "live": True}))
         # a retry budget of 0 / 1: a request nothing can serve must still return (the holder keeps its allocations for ever)
         for rt in (0, 1):
             c0 = es.conc_cfg(cap=200, kind=kind, minseg=8, retries=rt)
@@ -74,7 +74,7 @@ def scenarios(tier):
                        [[AB(60), AB(16), FILL(T0), VER(T0)], [AB(8), FILL(T1)]], {"live": True}))
         # discard_freelist against a release that becomes the new head between the discarder's mark and its unlink
         sc.append(("discard_vs_insert_" + kind, c, SETUP_TWOSEG,
-                   [[{"k": "discard"}], [DROP(2), AB(8), FILL(T1), VER(T1)]], {"live": True}))
+                   [[{"k": "discard"}], [DROP(2), AB(8), FILL(T1), VER(T1)]], {"pb": True, "live": True}))
         # a segment written and released by one thread is the SECOND fit of the other thread's request (the search walks
         # over a node before it takes one: the hand-over must be ordered through the skipped node's word as well)
         sc.append(("recycle_second_" + kind, c, SETUP_TWOSEG,
@@ -115,7 +115,7 @@ def scenarios(tier):
         # cursor and its (successful) CAS -- per entry point, since each has its own CAS
         for nm, first in (("aa", AA(8, 8, 4)), ("at", AT(8, 8)), ("ab", AB(9))):
             sc.append(("aba_cursor_%s_%s" % (nm, kind), c, SETUP_FRESH,
-                       [[first, FILL(T0), VER(T0)], [AB(12), FILL(T1), DROP(T1)]], {"live": True, "expect_live": True}))
+                       [[first, FILL(T0), VER(T0)], [AB(12), FILL(T1), DROP(T1)]], {"pb": True, "live": True, "expect_live": True}))
         sc.append(("fresh_last_bytes_" + kind, c, [AB(127), FILL(1)],
                    [[AB(64), FILL(T0), VER(T0)], [AB(64), FILL(T1), VER(T1)]], {"live": True, "expect_live": True}))
     if tier == "thorough":
@@ -300,7 +300,9 @@ def run(prop, tier, seed):
         len(analysed), sum(a["distinct"] for a in analysed), sum(len(a["cex"]) for a in analysed)))
     # ---- drivers
     drivers, impl_groups = [], {}
+    flags_now = {sc_[0]: sc_[4] for sc_ in scs}
     for a in analysed:
+        a["flags"] = flags_now.get(a["name"], a["flags"])   # (cached analyses may carry the flags of an earlier version)
         grp = []
         for i, cx in enumerate(a["cex"]):
             grp.append({"id": "cex:%s:%s:%d" % (a["name"], cx["prop"], i), "cfg": a["cfg"], "setup": a["setup"], "threads": a["progs"],
@@ -311,6 +313,15 @@ def run(prop, tier, seed):
         for cv in a.get("cover", []):
             grp.append({"id": "cov:%s:%s" % (a["name"], cv["label"]), "cfg": a["cfg"], "setup": a["setup"], "threads": a["progs"],
                         "schedule": cv["schedule"], "budget": 6000})
+        # preemption-bounded schedules (two context switches): thread a runs i steps, thread b runs j steps, a runs on, then b.
+        # Windows such as "b read the head word, a popped / split / released it again, b resumes" are a handful of (i, j)
+        # pairs among 2^40 interleavings: random sampling does not find them, this enumeration cannot miss them.
+        if len(a["progs"]) == 2 and (a["flags"].get("pb") or tier == "thorough"):
+            for first in (0, 1):
+                for i in range(0, 9 if tier == "quick" else 13):
+                    for j in range(1, 41 if tier == "quick" else 61):
+                        grp.append({"id": "pb:%s:%d:%d:%d" % (a["name"], first, i, j), "cfg": a["cfg"], "setup": a["setup"], "threads": a["progs"],
+                                    "schedule": [first] * i + [1 - first] * j + [first] * 80 + [1 - first] * 80, "budget": 6000})
         n_rand = 60 if tier == "quick" else 600
         for i in range(n_rand):
             grp.append({"id": "pct:%s:%d" % (a["name"], i), "cfg": a["cfg"], "setup": a["setup"], "threads": a["progs"],
@@ -361,7 +372,7 @@ def run(prop, tier, seed):
         if ln.startswith('{"cfg"') or '"ev":"reset"' in ln[:600]:
             did = json.loads(ln)["id"]
             parts = did.split(":")
-            cur = parts[1] if parts[0] in ("cex", "sim", "pct", "cov") else None
+            cur = parts[1] if parts[0] in ("cex", "sim", "pct", "cov", "pb") else None
         if cur:
             per.setdefault(cur, []).append(ln)
 
@@ -425,7 +436,7 @@ def run(prop, tier, seed):
         "traces_validated_against_impl": sum(len(g) for (_, g) in impl_groups.values()),
         "samples": [{"scenario": analysed[0]["name"], "programs": analysed[0]["progs"], "schedule": (analysed[0]["schedules"] or [[]])[0][:40]}],
         "evaluations": len(drivers),
-        "distinct_nontrivial": len({json.dumps(d["schedule"]) + d["id"].split(":")[1] for d in drivers if d["id"].split(":")[0] in ("sim", "cex", "pct", "cov")}),
+        "distinct_nontrivial": len({json.dumps(d["schedule"]) + d["id"].split(":")[1] for d in drivers if d["id"].split(":")[0] in ("sim", "cex", "pct", "cov", "pb")}),
         "rule": "every interleaving of %d scenarios explored exhaustively by TLC (safety invariants; liveness under weak fairness where flagged); "
                 "real executions = TLC simulation schedules + TLC counterexample schedules + seeded bursty/PCT schedules + random programs; "
                 "non-trivial = distinct (scenario, schedule) pairs forced on the real code" % len(analysed),
